@@ -101,7 +101,7 @@ Bound(th) ==
        [] th = "doc" -> 6
        [] th = "text" -> 1
        [] th = "attrs" -> 1
-       [] OTHER -> 3) + (IF th \in {"text"} THEN 0 ELSE Extra - Less)
+       [] OTHER -> 3) + (IF th \in {"text", "attrs"} THEN 0 ELSE Extra - Less)
 
 VARIABLES theme, stack, n
 vars == <<theme, stack, n>>
